@@ -1,31 +1,84 @@
 package main
 
 import (
+	"flag"
 	"fmt"
 	"os"
+	"runtime"
+	"time"
 
-	"github.com/klev-dev/klevdb"
-	"github.com/klev-dev/klevdb/verifsim/sim"
+	"github.com/klev-dev/klevdb/verifsim/harness"
 )
 
 func main() {
-	dir, _ := os.MkdirTemp("/dev/shm", "t")
-	defer os.RemoveAll(dir)
-	sim.BeginInline(1, 1700000000000000)
-	sim.FS = sim.NewFSTrace()
-	l, err := klevdb.Open(dir, klevdb.Options{KeyIndex: true, TimeIndex: true, Rollover: 100})
-	if err != nil {
-		panic(err)
+	defer func() {
+		if v := recover(); v != nil {
+			if e, ok := v.(interface{ infra() }); ok {
+				_ = e
+				fmt.Fprintln(os.Stderr, "INFRA-ERROR:", v)
+				os.Exit(2)
+			}
+			panic(v)
+		}
+	}()
+	if len(os.Args) < 2 {
+		fmt.Fprintln(os.Stderr, "usage: vsim run|worker|exec ...")
+		os.Exit(2)
 	}
-	for i := 0; i < 5; i++ {
-		n, err := l.Publish([]klevdb.Message{{Key: []byte("k"), Value: []byte("vvvvvvvvvvvvvvvvvvvvvvvvvvvvvvvvvvvvvvvvvvvvvvvvvvvvvvvvvvvvvvvvvvvv")}})
-		fmt.Println(n, err)
+	switch os.Args[1] {
+	case "worker":
+		fs := flag.NewFlagSet("worker", flag.ExitOnError)
+		prop := fs.String("prop", "", "")
+		tier := fs.String("tier", "quick", "")
+		seed := fs.Uint64("seed", 1, "")
+		start := fs.Int64("start", 0, "")
+		stride := fs.Int64("stride", 1, "")
+		deadline := fs.Int64("deadline", 0, "unix ms")
+		maxruns := fs.Int64("maxruns", 0, "")
+		scratch := fs.String("scratch", "", "")
+		_ = fs.Bool("race", false, "")
+		_ = fs.Parse(os.Args[2:])
+		os.Exit(harness.WorkerMain(*prop, *tier, *seed, *start, *stride, time.UnixMilli(*deadline), *maxruns, *scratch))
+	case "exec":
+		fs := flag.NewFlagSet("exec", flag.ExitOnError)
+		plan := fs.String("plan", "", "")
+		scratch := fs.String("scratch", "", "")
+		_ = fs.Parse(os.Args[2:])
+		os.Exit(harness.ExecMain(*plan, *scratch))
+	case "run":
+		fs := flag.NewFlagSet("run", flag.ExitOnError)
+		c := &harness.SuperCfg{}
+		fs.StringVar(&c.Prop, "prop", "", "")
+		fs.StringVar(&c.Tier, "tier", "quick", "")
+		fs.Uint64Var(&c.Seed, "seed", 1, "")
+		fs.IntVar(&c.BudgetS, "budget", 0, "")
+		fs.IntVar(&c.Workers, "workers", runtime.NumCPU(), "")
+		fs.StringVar(&c.OutDir, "out", "", "")
+		fs.StringVar(&c.Evidence, "evidence", "", "")
+		fs.StringVar(&c.KnownFile, "known", "", "")
+		fs.StringVar(&c.Scratch, "scratch", "", "")
+		fs.StringVar(&c.Bin, "bin", "", "")
+		fs.StringVar(&c.BinRace, "bin-race", "", "")
+		fs.Int64Var(&c.MaxRuns, "maxruns", 0, "")
+		_ = fs.Parse(os.Args[2:])
+		if def := harness.Props[c.Prop]; def != nil && c.BudgetS == 0 {
+			c.BudgetS = def.QuickS
+			if c.Tier == "thorough" {
+				c.BudgetS = def.ThorS
+			}
+		}
+		os.Exit(harness.Supervise(c))
+	case "replay":
+		fs := flag.NewFlagSet("replay", flag.ExitOnError)
+		c := &harness.SuperCfg{}
+		plan := fs.String("plan", "", "")
+		fs.StringVar(&c.Scratch, "scratch", "", "")
+		fs.StringVar(&c.Bin, "bin", "", "")
+		fs.StringVar(&c.BinRace, "bin-race", "", "")
+		_ = fs.Parse(os.Args[2:])
+		os.Exit(harness.ReplayMain(c, *plan))
+	default:
+		fmt.Fprintln(os.Stderr, "unknown subcommand", os.Args[1])
+		os.Exit(2)
 	}
-	fmt.Println(l.Delete(map[int64]struct{}{0: {}}))
-	fmt.Println(l.Close())
-	for _, e := range sim.FS.Events {
-		fmt.Printf("%d fd=%d %s %s len=%d created=%v\n", e.Kind, e.Fd, e.Path, e.Path2, len(e.Data), e.Created)
-	}
-	fmt.Println(sim.S.Steps())
-	sim.End()
 }
